@@ -43,7 +43,7 @@ def _case(draw, tier):
         limit = start + iters * step if iters > 0 else start - draw(st.integers(0, 1))
         L = {"k": draw(st.integers(1, 4)), "form": form, "gate": draw(st.sampled_from(["ifelse", "route"])), "exit": draw(st.sampled_from(["END", "node"])),
              "dopen": draw(st.booleans()), "limit": limit, "step": step, "start": start, "limit_input": draw(st.booleans()), "step_input": draw(st.booleans()),
-             "acc": False, "nested": False, "limit_off": 0, "entry": 0, "b0_waits": draw(st.booleans()), "const_emitter": draw(st.booleans())}
+             "acc": False, "nested": False, "limit_off": 0, "entry": 0, "b0_waits": draw(st.booleans()), "const_emitter": draw(st.booleans()), "gate_free_running": draw(st.booleans())}
         if form == "selfsignal":
             L["k"] = draw(st.sampled_from([2, 3, 3, 4]))
         if form == "waitlast":
